@@ -36,12 +36,18 @@ B64S = [B64A, B64B, B64C, B64_NL, B64_SHORT]
 REPRS = ["<Figure at 0x7f1234567890>", "<Figure at 0x7fabcdef0123>", "<matplotlib.lines.Line2D at 0x10a5b3c8d>",
          "<matplotlib.lines.Line2D at 0x20b6c4d9e>", "42", "43", "array([1, 2, 3])", "array([1, 2, 4])"]
 
-FREE_KEYS = ["a", "b", "c", "deep"]
+FREE_KEYS = ["a", "b", "c", "deep"] * 4 + ["constructor", "toString", "hasOwnProperty", "valueOf", "constructor"]
+
+
+# unbroken runs of non-ASCII word characters, longer than 64 characters (an unpunctuated CJK sentence, print("数据" * 40))
+WORD_RUNS = ["数据" * 40, "é" * 68, "αβγδ" * 20 + "abcd", "Übergrößenträger" * 5, "данные" * 12, "数据" * 33 + "+/"]
 
 
 def _line(draw, pool):
     w = draw(st.sampled_from(pool))
     k = draw(st.integers(0, 7))
+    if k == 2 and draw(st.integers(0, 7)) == 0:
+        return draw(st.sampled_from(WORD_RUNS))
     if k == 0:
         w = w + draw(st.sampled_from([" #1", " + 1", "  ", "x", " # TODO"]))
     elif k == 1:
@@ -88,6 +94,8 @@ def free_metadata(draw, maxkeys=2):
     for _ in range(draw(st.integers(0, maxkeys))):
         k = draw(st.sampled_from(FREE_KEYS))
         d[k] = copy.deepcopy(draw(st.one_of(json_val(2), st.sampled_from(SHAPES))))
+    if draw(st.sampled_from(range(300))) == 150:
+        d["__proto__"] = draw(json_val(1))       # an ordinary key for JSON and Python
     if draw(st.sampled_from(range(14))) == 0:
         # the committed result of an earlier conflicted merge carries nbdime's own record
         d["nbdime-conflicts"] = {"local_diff": [{"op": "add", "key": "x", "value": 1}], "remote_diff": [{"op": "add", "key": "x", "value": 2}]}
@@ -508,7 +516,7 @@ def edit_cell(draw, c, minor, kinds=None, n_edits=None):
             newt = draw(st.sampled_from([t for t in ("code", "markdown", "markdown", "raw") if t != c["cell_type"]]))
             if newt != c["cell_type"]:
                 keep = {k: c[k] for k in ("id", "source") if k in c}
-                c = {"cell_type": newt, "metadata": {k: v for k, v in c["metadata"].items() if k in FREE_KEYS}, **keep}
+                c = {"cell_type": newt, "metadata": {k: v for k, v in c["metadata"].items() if k in FREE_KEYS or k == "__proto__"}, **keep}
                 if newt == "code":
                     c["execution_count"] = None
                     c["outputs"] = []
@@ -637,7 +645,7 @@ def _forced_conflict(draw, base):
     n = len(base["cells"])
     shape = draw(st.sampled_from(["del_vs_edit", "edit_vs_del", "both_edit_source", "both_edit_outputs", "both_edit_meta",
                                   "both_insert_same_pos", "both_insert_similar", "both_insert_runs", "both_insert_runs", "insert_next_to_edit", "insert_next_to_del",
-                                  "both_append_nonl", "both_attach", "both_nbmeta", "both_minor", "both_del", "both_ec", "both_change_id",
+                                  "both_append_nonl", "both_attach", "both_attach_leftover", "same_insert_next_line_edit", "same_insert_next_line_edit", "both_nbmeta", "both_minor", "both_del", "both_ec", "both_change_id",
                                   "both_same_edit", "both_edit_same_output", "both_edit_same_output", "transient_meta", "type_vs_edit", "type_vs_edit", "type_vs_edit", "both_rerun", "both_rerun", "both_rerun", "both_rerun", "two_outputs", "two_outputs", "both_insert_block"]))
     usedl, usedr = _ids(l), _ids(r)
     if shape == "both_insert_runs":
@@ -712,6 +720,31 @@ def _forced_conflict(draw, base):
     elif shape == "both_edit_meta":
         l["cells"][i] = draw(edit_cell(c, minor, ["metadata"]))
         r["cells"][i] = draw(edit_cell(c, minor, ["metadata"]))
+    elif shape == "same_insert_next_line_edit":
+        # both sides add the same line(s) above a line that ONE side also edits at its first column (un-comment / comment out,
+        # de-dent / indent) or elsewhere - in the source, or in the text of a stream output
+        lines = ["import numpy as np\n", "# data = load('train.csv')\n", "    y = g(x)\n", "print(data.shape)\n", "> loss 0.9\n", "finished"]
+        keep = draw(st.integers(2, len(lines)))
+        lines = lines[:keep]
+        if not lines[-1].endswith("\n") or draw(st.booleans()):
+            lines[-1] = lines[-1].rstrip("\n")
+        k = draw(st.integers(0, len(lines) - 1))
+        new = [draw(st.sampled_from(["from util import load\n", "lr 0.01\n", "\n"])) for _ in range(draw(st.sampled_from([1, 1, 2])))]
+        body = lines[k]
+        edited = draw(st.sampled_from([body[2:] if len(body) > 3 else "Z" + body, body.lstrip(" ") if body.startswith(" ") else "    " + body,
+                                       "# " + body, body[:3] + "Z" + body[3:], body[:1] + body[2:]]))
+        one, other = lines[:k] + new + [edited] + lines[k + 1:], lines[:k] + new + lines[k:]
+        if draw(st.booleans()):
+            one, other = other, one
+        extra_l = ["extra local\n"] if draw(st.sampled_from([False, False, True])) else []     # local adds one more line than remote
+        one = one[:k] + extra_l + one[k:]
+        where = "text" if c["cell_type"] == "code" and draw(st.booleans()) else "source"
+        for nb_, ls in ((base, lines), (l, one), (r, other)):
+            cc = nb_["cells"][i]
+            if where == "source":
+                cc["source"] = "".join(ls)
+            else:
+                cc["outputs"] = [{"output_type": "stream", "name": "stdout", "text": "".join(ls)}] + cc["outputs"][:1]
     elif shape == "both_change_id":
         # both sides re-created the cell (cut and paste): same content, a new id on each side
         if "id" in c:
@@ -819,7 +852,23 @@ def _forced_conflict(draw, base):
         else:
             l["cells"][i] = draw(edit_cell(c, minor, ["metadata"]))
             r["cells"][i] = draw(edit_cell(c, minor, ["metadata"]))
-    elif shape == "both_attach":
+    elif shape == "both_attach_leftover" and c["cell_type"] != "code":
+        # an attachment both sides replace with different data, in a cell that still holds LOCAL_/REMOTE_ leftovers of an earlier
+        # conflicted merge (none, one or both of them)
+        name = draw(st.sampled_from(["a.png", "img.png"]))
+        att = {name: {"image/png": B64A}}
+        for left in draw(st.sampled_from([["LOCAL_"], ["REMOTE_"], ["LOCAL_"], ["REMOTE_"], ["LOCAL_", "REMOTE_"], []])):
+            att[left + name] = {"image/png": draw(st.sampled_from(B64S[:3]))}
+        for nb_ in (base, l, r):
+            nb_["cells"][i]["attachments"] = copy.deepcopy(att)
+        l["cells"][i]["attachments"][name] = {"image/png": B64B}
+        r["cells"][i]["attachments"][name] = {"image/png": B64C}
+        for side in (l, r):
+            # ... and a side may have tidied up a leftover
+            for k in [k for k in sorted(att) if k != name]:
+                if draw(st.sampled_from([True, False, False])):
+                    del side["cells"][i]["attachments"][k]
+    elif shape == "both_attach" or shape == "both_attach_leftover":
         l["cells"][i] = draw(edit_cell(c, minor, ["attach"]))
         r["cells"][i] = draw(edit_cell(c, minor, ["attach"]))
     elif shape == "both_same_edit":
